@@ -43,3 +43,16 @@ func WildProfile(off map[string]bool) *Profile {
 	p.Weights["panic"] = 2
 	return p
 }
+
+// DispatchProfile is the C12/C18 domain: the flow profile with every function entry instrumented (enter(id)) and
+// more weight on the dynamic call forms.
+func DispatchProfile(off map[string]bool) *Profile {
+	p := FlowProfile(off)
+	p.Name = "dispatch"
+	p.Enter = true
+	for _, k := range []string{"call", "methodcall", "ifacecall", "funcval", "closure", "methodvalue", "generic", "defer"} {
+		p.Weights[k] += 4
+	}
+	p.Weights["panic"] = 0
+	return p
+}
